@@ -149,6 +149,8 @@ def c11_history(col, rng, hidx, jobref=None):
     pid = (jobref or {}).get("pid", "C11")
     col = _Filtered(col, (jobref or {}).get("only"))
     sp, setup = gen_hist_spec(rng)
+    if (jobref or {}).get("flavour") == "async":
+        sp["is_async"] = True
     if (jobref or {}).get("require_flags") and not any(nd.get("active") for nd in sp["nodes"]):
         return  # (this property's clauses only concern programs with activation flags)
     plain = S.make_fns(sp)
@@ -1180,7 +1182,7 @@ def _c18_case(col, rng, cidx, tmpdir, jobref=None):
                 col.violation(pid, "restart_from_cache_raised", dict(exc=repr(rb2[1])[:300], second_use_of_same_file=True, source=S.render(sp)), rp2)
             elif not same(refb[1].result, rb2[1]):
                 col.violation(pid, "restart_returns_values_of_an_older_cache_file_content", dict(
-                    differing=[(ids[q], short(a_, 120), short(b_, 120)) for q, (a_, b_) in enumerate(zip(refb[1].result, rb2[1])) if not same(a_, b_)][:3]
+                    differing=[("returned item %d" % q, short(a_, 120), short(b_, 120)) for q, (a_, b_) in enumerate(zip(refb[1].result, rb2[1])) if not same(a_, b_)][:3]
                     if isinstance(rb2[1], tuple) and isinstance(refb[1].result, tuple) else None,
                     expected=short(refb[1].result, 300), got=short(rb2[1], 300), caching=S.jsonable(kw1), restart=S.jsonable(kwb), source=S.render(sp)), rp2)
             elif sorted(x for x in entb if x in cached):
@@ -1199,7 +1201,13 @@ def job_cache18(j):
     tmpdir = tempfile.mkdtemp(prefix="twzcache_")
     try:
         for c in range(j["n_cases"]):
-            c18_case(col, rng, c, tmpdir, jobref=j)
+            try:
+                c18_case(col, rng, c, tmpdir, jobref=j)
+            except Exception as e:  # noqa: BLE001
+                # the monitor itself could not cope with what it observed: that case has no verdict (the other cases keep theirs)
+                import traceback
+
+                col.inconclusive.append("monitor error in case %d: %r\n%s" % (c, e, traceback.format_exc()[-1500:]))
     finally:
         shutil.rmtree(tmpdir, ignore_errors=True)
     return col.result()
